@@ -27,7 +27,8 @@ Record cfg := {
   c_mem : bool;               (* memory mode (segmentPath = "") *)
   c_copy : bool;              (* memorySegmentFile.get hands out a copy (the repaired code) *)
   c_path : bytes;             (* stream path *)
-  c_sps : bytes; c_pps : bytes;
+  c_sps : bytes; c_pps : bytes; (* the stream's parameter sets NOW: codec.VideoMeta.Sps/Pps, which the packetizer
+                                   reads per frame and which the RTP depacketizer may fill in or change later *)
   c_pick : list Z -> nat      (* sync.Pool: which free buffer Get returns (out of range = a new one) *)
 }.
 
@@ -51,7 +52,12 @@ Definition AUD : bytes := [0; 0; 0; 1; 9; 240].
 Definition SC4 : bytes := [0; 0; 0; 1].
 Definition SC3 : bytes := [0; 0; 1].
 Definition opt_ps (ps : bytes) : bytes := match ps with [] => [] | _ => SC4 ++ ps end.
-Definition key_header (c : cfg) : bytes := AUD ++ opt_ps (c_sps c) ++ opt_ps (c_pps c) ++ SC3.
+Definition key_header_ps (sps pps : bytes) : bytes := AUD ++ opt_ps sps ++ opt_ps pps ++ SC3.
+Definition key_header (c : cfg) : bytes := key_header_ps (c_sps c) (c_pps c).
+(* VideoMeta.Sps/Pps assigned (SDP sprop-parameter-sets absent: the depacketizer fills them from the stream) *)
+Definition set_ps (c : cfg) (sps pps : bytes) : cfg :=
+  {| c_frag := c_frag c; c_rate := c_rate c; c_mem := c_mem c; c_copy := c_copy c; c_path := c_path c;
+     c_sps := sps; c_pps := pps; c_pick := c_pick c |}.
 Definition video_header (c : cfg) (k : kind) : bytes :=
   match k with KK => key_header c | _ => AUD ++ SC3 end.
 Definition adts (n : Z) : bytes :=
@@ -62,7 +68,8 @@ Definition adts (n : Z) : bytes :=
 Record wframe := {
   w_pid : Z; w_pts : Z; w_dts : Z; w_key : bool;
   w_es : bytes;              (* Header ++ Payload, the PES payload *)
-  w_src : list frame         (* the source frames it carries (several for an audio batch) *)
+  w_src : list frame;        (* the source frames it carries (several for an audio batch) *)
+  w_sps : bytes; w_pps : bytes  (* ghost: the stream's parameter sets when the frame was packetized *)
 }.
 
 Record seg := {
@@ -166,7 +173,8 @@ Definition flush_frame (w : wframe) (s : st) : st :=
   end.
 
 Definition cache_frame (a : acache) : wframe :=
-  {| w_pid := APID; w_pts := a_pts a; w_dts := a_pts a; w_key := false; w_es := a_es a; w_src := a_src a |}.
+  {| w_pid := APID; w_pts := a_pts a; w_dts := a_pts a; w_key := false; w_es := a_es a; w_src := a_src a;
+     w_sps := []; w_pps := [] |}.
 
 Definition flush_cache (s : st) : st :=
   match cache s with
@@ -219,7 +227,7 @@ Definition jitter_start (c : cfg) (pts : Z) (s : st) : Z * st :=
 
 Definition video_frame (c : cfg) (f : frame) : wframe :=
   {| w_pid := VPID; w_pts := f_pts f; w_dts := f_dts f; w_key := is_key (f_kind f);
-     w_es := video_header c (f_kind f) ++ f_pay f; w_src := [f] |}.
+     w_es := video_header c (f_kind f) ++ f_pay f; w_src := [f]; w_sps := c_sps c; w_pps := c_pps c |}.
 
 (* SegmentGenerator.WriteMpegtsFrame *)
 Definition write_frame (c : cfg) (f : frame) (s : st) : st :=
@@ -391,7 +399,8 @@ Inductive op :=
 | ORead (h : Z)               (* read the h-th kept reader to the end *)
 | OPlGet (tok : bytes)        (* M3u8(tok): keep the returned slice *)
 | OPlRead (h : Z)             (* look at the h-th kept slice again *)
-| OClose.
+| OClose
+| OSetPs (sps pps : bytes).   (* the stream's SPS/PPS become known / change: vm.Sps, vm.Pps assigned *)
 
 (* what a segment read yields, at the frame level: the harness demultiplexes the bytes *)
 Record segobs := { g_ok : bool;           (* well-formed TS, advertised size = bytes read, re-muxing the frames gives the same bytes *)
@@ -413,7 +422,8 @@ Record sobs := {
 }.
 
 Definition strip (w : wframe) : wframe :=
-  {| w_pid := w_pid w; w_pts := w_pts w; w_dts := w_dts w; w_key := w_key w; w_es := w_es w; w_src := [] |}.
+  {| w_pid := w_pid w; w_pts := w_pts w; w_dts := w_dts w; w_key := w_key w; w_es := w_es w; w_src := [];
+     w_sps := []; w_pps := [] |}.
 Definition obs_of_frames (fs : list wframe) : segobs := {| g_ok := true; g_frames := map strip fs |}.
 
 (* run state: generator/playlist, kept readers, kept playlist slices, default token *)
@@ -455,6 +465,7 @@ Definition step (c : cfg) (dtok : bytes) (r : rst) (o : op) : rst * sobs :=
         end
     | OPlRead h => (r_st r, r_readers r, r_pls r, RPlRead (nth_z (r_pls r) h))
     | OClose => (close_all (r_st r), r_readers r, r_pls r, RNone)
+    | OSetPs _ _ => (r_st r, r_readers r, r_pls r, RNone)
     end in
   let live := live_seqs s' in
   let newsegs := filter (fun g => negb (mem_z (s_seq g) (r_prev r))) (pl s') in
@@ -465,15 +476,19 @@ Definition step (c : cfg) (dtok : bytes) (r : rst) (o : op) : rst * sobs :=
       o_new := map (fun g => (s_seq g, obs_of_frames (s_frames g))) newsegs;
       o_res := res |}).
 
-Fixpoint run_from (c : cfg) (dtok : bytes) (r : rst) (ops : list op) : list (rst * sobs) :=
+(* the configuration in force for the next operation *)
+Definition step_cfg (c : cfg) (o : op) : cfg :=
+  match o with OSetPs sps pps => set_ps c sps pps | _ => c end.
+
+Fixpoint run_from (c : cfg) (dtok : bytes) (r : rst) (ops : list op) : list (cfg * (rst * sobs)) :=
   match ops with
   | [] => []
-  | o :: t => let '(r', ob) := step c dtok r o in (r', ob) :: run_from c dtok r' t
+  | o :: t => let '(r', ob) := step c dtok r o in (c, (r', ob)) :: run_from (step_cfg c o) dtok r' t
   end.
 
 Definition rinit (c : cfg) : rst := {| r_st := init c; r_readers := []; r_pls := []; r_prev := [] |}.
-Definition run (c : cfg) (dtok : bytes) (ops : list op) : list (rst * sobs) := run_from c dtok (rinit c) ops.
-Definition model (c : cfg) (dtok : bytes) (ops : list op) : list sobs := map snd (run c dtok ops).
+Definition run (c : cfg) (dtok : bytes) (ops : list op) : list (cfg * (rst * sobs)) := run_from c dtok (rinit c) ops.
+Definition model (c : cfg) (dtok : bytes) (ops : list op) : list sobs := map (fun x => snd (snd x)) (run c dtok ops).
 
 Definition frames_of (ops : list op) : list frame :=
   flat_map (fun o => match o with OFrame f => [f] | _ => [] end) ops.
@@ -502,10 +517,18 @@ Definition view_ok (c : cfg) (tok : bytes) (live : list Z) (v : plview) : bool :
 (* first video frame of a segment *)
 Definition first_video (fs : list wframe) : option wframe := find (fun w => w_pid w =? VPID) fs.
 (* it is a key frame and its elementary stream starts with AUD, SPS, PPS and a start code *)
-Definition starts_with_key (c : cfg) (fs : list wframe) : bool :=
+Definition starts_with_key_ps (sps pps : bytes) (fs : list wframe) : bool :=
   match first_video fs with
   | None => true
-  | Some w => w_key w && is_prefix (key_header c) (w_es w)
+  | Some w => w_key w && is_prefix (key_header_ps sps pps) (w_es w)
+  end.
+Definition starts_with_key (c : cfg) (fs : list wframe) : bool := starts_with_key_ps (c_sps c) (c_pps c) fs.
+
+(* the stream's SPS/PPS that were current when the first video frame of the model's segment [seq] was packetized *)
+Definition model_ps (s : st) (seq : Z) : bytes * bytes :=
+  match find_seg seq (pl s) with
+  | Some g => match first_video (s_frames g) with Some w => (w_sps w, w_pps w) | None => ([], []) end
+  | None => ([], [])
   end.
 
 (* the guard of D35: the model's segment [seq] was not opened by the audio-driven reap *)
@@ -559,21 +582,23 @@ Definition ok_step (c : cfg) (dtok : bytes) (strict : bool) (m : rst * sobs) (o 
   (* every segment is the transport stream of exactly the frames written for its number *)
   && list_eqb newseg_eqb (o_new o) (o_new mo)
   && forallb (fun x => g_ok (snd x)) (o_new o)
-  (* every segment after the first starts its video with a key frame preceded by SPS/PPS *)
+  (* every segment after the first starts its video with a key frame preceded by the SPS/PPS of the stream
+     that were current when that frame was packetized *)
   && forallb (fun x => (fst x <=? 1) || (negb strict && opened_by_audio s (fst x))
-                       || starts_with_key c (g_frames (snd x))) (o_new o)
+                       || starts_with_key_ps (fst (model_ps s (fst x))) (snd (model_ps s (fst x))) (g_frames (snd x)))
+             (o_new o)
   (* kept readers / kept playlist slices still show what they showed when handed out *)
   && opres_eqb (o_res o) (o_res mo) && res_ok (o_res o).
 
-Fixpoint ok_steps (c : cfg) (dtok : bytes) (strict : bool) (ms : list (rst * sobs)) (os : list sobs) : bool :=
+Fixpoint ok_steps (dtok : bytes) (strict : bool) (ms : list (cfg * (rst * sobs))) (os : list sobs) : bool :=
   match ms, os with
   | [], [] => true
-  | m :: ms', o :: os' => ok_step c dtok strict m o && ok_steps c dtok strict ms' os'
+  | m :: ms', o :: os' => ok_step (fst m) dtok strict (snd m) o && ok_steps dtok strict ms' os'
   | _, _ => false
   end.
 
 Definition ok (c : cfg) (dtok : bytes) (strict : bool) (ops : list op) (obs : list sobs) : bool :=
-  ok_steps c dtok strict (run c dtok ops) obs.
+  ok_steps dtok strict (run c dtok ops) obs.
 
 (* ------------------------------------------------------------------ well-formed inputs *)
 Definition PTS_MAX : Z := 2 ^ 33.
